@@ -353,7 +353,11 @@ def run_layout(ctx, spec, viol, cases, lines, outs, choices=None):
             if a != b:
                 choices.append(([a, b], ctx.rng.random() < 0.8))
         group = [g for g in spec.get("prefix_group", []) if g in snap]
-        for a, b in itertools.permutations(group, 2):
+        pairs = list(itertools.permutations(group, 2))
+        if len(pairs) > 6 and not ctx.thorough():
+            srt = sorted(group)
+            pairs = [p for k in range(len(srt) - 1) for p in ((srt[k], srt[k + 1]), (srt[k + 1], srt[k]))]
+        for a, b in pairs:
             choices.append(([a, b], True))
         if len(group) >= 3:
             tri = group[:3]
@@ -502,7 +506,7 @@ def run(ctx):
     for spec, choices in pinned:
         run_layout(ctx, spec, viol, cases, lines, outs, choices=choices)
     ctx.extra["git_named_control_file"] = {"G": "versioned (as found)", "H": "refused"}[git_fmt_char()]
-    for _ in range(ctx.pick(7, 70)):
+    for _ in range(ctx.pick(5, 70)):
         for fmt in ("2a", "git"):
             specs.append(add_conflicts_to_spec(ctx.rng, c46.gen_spec(ctx.rng, fmt)))
     for spec in specs:
